@@ -15,7 +15,11 @@ use cw_multi_test::{
 use schemars::JsonSchema;
 use serde::de::DeserializeOwned;
 use serde::{Deserialize, Serialize};
+// under Miri sha2's cpuid feature probe (inline asm) is unsupported; the digest only has to be collision-resistant
+#[cfg(not(miri))]
 use sha2::{Digest, Sha256};
+#[cfg(miri)]
+use sha3::{Digest, Sha3_256 as Sha256};
 use std::cell::{Cell, RefCell};
 use std::collections::BTreeMap;
 use std::panic::{catch_unwind, AssertUnwindSafe};
